@@ -596,7 +596,15 @@ def _h_hash(args, kw):
 def _h_round(args, kw):
     a = args[0]
     if type(a) in (SymReal, RealProxy):
-        raise Unmodelled('round() of a symbolic real')
+        if len(args) > 1 or kw:
+            raise Unmodelled('round(x, ndigits) of a symbolic real')
+        # round half to even: floor(x + 1/2), one less when x + 1/2 is an odd integer
+        x = a.z
+        f = z3.ToInt(x + z3.RealVal('1/2'))
+        half = z3.ToReal(f) == x + z3.RealVal('1/2')
+        return SymInt(a.eng, z3.If(z3.And(half, f % 2 != 0), f - 1, f))
+    if type(a) in (SymInt, NumProxy) and len(args) == 1 and not kw:
+        return SymInt(a.eng, a.z)
     return round(*args, **kw)
 
 
